@@ -1001,6 +1001,154 @@ theorem endTagHint_sim {E : γ → γ → Prop} {inpS inpW : Bytes} {δ : Nat} (
   rw [← e1]
   exact applyHintFlags_sim (h1.setCtl e2) _
 
+/-! ### repaying the text debt -/
+
+theorem slice_length {α : Type} (xs : List α) {a b : Nat} (hb : b ≤ xs.length) : (LolHtml.slice xs a b).length = b - a := by
+  unfold LolHtml.slice
+  simp only [List.length_drop, List.length_take]
+  omega
+
+theorem slice_self {α : Type} (xs : List α) (a : Nat) : LolHtml.slice xs a a = [] := by
+  unfold LolHtml.slice; simp
+
+/-- the whole run's text lexeme `[a, x)` against the split run's remainder `[a + d, x)`, the first `d` bytes
+having been delivered to the split run's dispatcher before -/
+theorem textRepay_sim {E : γ → γ → Prop} {inpS inpW : Bytes} {δ : Nat} (F : Frame inpS inpW δ) (hcl : TextBlind ctl E)
+    {ds dw : Disp γ} (pc a x d : Nat) (tt : TextType) (hk : DKt ctl E inpS inpW δ d ds dw)
+    (hloc : ds.rcs = a + d - δ ∧ ds.textPendingStart = pc + δ + (a + d - δ) ∧ ds.lastTextType = tt ∧ ds.textPending = true)
+    (hd : 0 < d) (hδ : δ ≤ a + d) (hx : a + d ≤ x) (o o' : Option NonTagOutline) :
+    OpRel (DK0 E inpS inpW δ)
+      (if a + d < x then ds.produceText ctl inpS ⟨pc + δ, ⟨a + d - δ, x - δ⟩, o⟩ tt else (ds, .ok ()))
+      (dw.produceText ctl inpW ⟨pc, ⟨a, x⟩, o'⟩ tt) := by
+  obtain ⟨l1, l2, l3, l4⟩ := hloc
+  have hl := F.len
+  have hrd := hk.rcs_d
+  have hri := hk.rcs_in
+  have hbytes := hk.bytes.bytes
+  rw [hk.emT] at hbytes
+  simp only [if_true] at hbytes
+  have hctl := hk.ctl
+  have e1 : ds.rcs + δ - d = a := by omega
+  have e2 : ds.rcs + δ = a + d := by omega
+  have e3 : ds.textPendingStart - d = pc + a := by omega
+  have e4 : ds.textPendingStart = pc + a + d := by omega
+  rw [e1, e2, l3, e3, e4] at hctl
+  rw [e2] at hbytes
+  by_cases hlt : a + d < x
+  · rw [if_pos hlt]
+    rcases produceText_desc ⟨E, hcl⟩ ds inpS ⟨pc + δ, ⟨a + d - δ, x - δ⟩, o⟩ tt with hp | ⟨rawb, a0, a1, a2, a3, a4, a5, a6, a7, a8, a9, a10, a11, a12, a13, a14⟩
+    · exact Or.inl hp
+    simp only at a0 a1 a3 a10 a13 a14
+    obtain ⟨r1, r2, r3⟩ := checkedSlice_some a0
+    simp only at r1 r2 r3
+    rcases produceText_desc ⟨E, hcl⟩ dw inpW ⟨pc, ⟨a, x⟩, o'⟩ tt with hp | ⟨rawb', b0, b1, b2, b3, b4, b5, b6, b7, b8, b9, b10, b11, b12, b13, b14⟩
+    · exact (produceText_noPanic ⟨E, hcl⟩ dw inpW ⟨pc, ⟨a, x⟩, o'⟩ tt (by simp only; omega) (by simp only; omega)
+        (by simp only; omega) hp).elim
+    simp only at b0 b1 b3 b10 b13 b14
+    obtain ⟨q1, q2, q3⟩ := checkedSlice_some b0
+    simp only at q1 q2 q3
+    have hb2 : rawb = LolHtml.slice inpW (a + d) x := by
+      rw [r3, ← F.slice r2]
+      congr 1 <;> omega
+    have hcat : rawb' = LolHtml.slice inpW a (a + d) ++ rawb := by
+      rw [q3, hb2, slice_append_slice inpW (by omega) hx]
+    have hlen1 : (LolHtml.slice inpW a (a + d)).length = d := by rw [slice_length inpW (by omega)]; omega
+    have hlen2 : rawb.length = x - (a + d) := by rw [hb2, slice_length inpW q2]
+    right
+    refine ⟨by rw [a2, b2], fun _ => ?_⟩
+    refine ⟨?_, ⟨by rw [a4, b4]; exact hk.eq.flags, by rw [a5, b5]; exact hk.eq.em, by rw [a7, b7]; exact hk.eq.gffh,
+      by rw [a8, b8]; exact hk.eq.paux, by rw [a11, b11]; exact hk.eq.enc, by rw [a12, b12]; exact hk.eq.nenc⟩,
+      ⟨by rw [a6, b6], by rw [a9, b9], by rw [a10, b10]; omega⟩,
+      ⟨by rw [a13, b13]; omega, ?_⟩, by rw [a5]; exact hk.emT⟩
+    · rw [a3, b3]
+      have h1 := hcl.text_cong _ _ rawb tt false (srcOf (pc + δ) ⟨a + d - δ, x - δ⟩) hctl
+      have h2 := hcl.text_split dw.ctl (LolHtml.slice inpW a (a + d)) rawb tt false (pc + a)
+      rw [hlen1, hlen2, ← hcat] at h2
+      have es : srcOf (pc + δ) ⟨a + d - δ, x - δ⟩ = ⟨pc + a + d, pc + a + d + (x - (a + d))⟩ := by
+        simp only [srcOf, Range.mk.injEq]; constructor <;> first | trivial | omega
+      have ew : srcOf pc ⟨a, x⟩ = ⟨pc + a, pc + a + d + (x - (a + d))⟩ := by
+        simp only [srcOf, Range.mk.injEq]; constructor <;> first | trivial | omega
+      rw [es] at h1 ⊢
+      rw [ew]
+      exact hcl.trans _ _ _ h1 h2
+    · rw [a14, b14, a13, b13, a5, hk.eq.em]
+      simp only [hk.emT, if_true]
+      rw [hbytes, l1, slice_self, hcat, show x - δ + δ = x from by omega, slice_self]
+      simp only [List.append_nil, List.nil_append, List.append_assoc]
+      rw [← List.append_assoc (LolHtml.slice inpW dw.rcs a), slice_append_slice inpW (by omega) (by omega)]
+  · rw [if_neg hlt]
+    have hxe : x = a + d := by omega
+    subst hxe
+    rcases produceText_desc ⟨E, hcl⟩ dw inpW ⟨pc, ⟨a, a + d⟩, o'⟩ tt with hp | ⟨rawb', b0, b1, b2, b3, b4, b5, b6, b7, b8, b9, b10, b11, b12, b13, b14⟩
+    · exact (produceText_noPanic ⟨E, hcl⟩ dw inpW ⟨pc, ⟨a, a + d⟩, o'⟩ tt (by simp only; omega) (by simp only; omega)
+        (by simp only; omega) hp).elim
+    simp only at b0 b1 b3 b10 b13 b14
+    obtain ⟨q1, q2, q3⟩ := checkedSlice_some b0
+    simp only at q1 q2 q3
+    right
+    refine ⟨by rw [b2], fun _ => ?_⟩
+    refine ⟨?_, ⟨by rw [b4]; exact hk.eq.flags, by rw [b5]; exact hk.eq.em, by rw [b7]; exact hk.eq.gffh,
+      by rw [b8]; exact hk.eq.paux, by rw [b11]; exact hk.eq.enc, by rw [b12]; exact hk.eq.nenc⟩,
+      ⟨by rw [b6, l3], by rw [b9, l4], by rw [b10]; show pc + (a + d) = ds.textPendingStart; omega⟩,
+      ⟨by rw [b13]; show a + d ≤ ds.rcs + δ; omega, ?_⟩, hk.emT⟩
+    · rw [b3, q3]
+      have ew : srcOf pc ⟨a, a + d⟩ = ⟨pc + a, pc + a + d⟩ := by
+        simp only [srcOf, Range.mk.injEq]; constructor <;> first | trivial | omega
+      rw [ew]
+      exact hctl
+    · rw [b14, b13, hk.eq.em]
+      simp only [hk.emT, if_true]
+      rw [hbytes, e2, slice_self, q3, List.append_nil, slice_append_slice inpW (by omega) (by omega)]
+
+/-! ### the dispatcher is a sink for the resumption proof -/
+
+theorem OpRel.mono {κ α : Type} {R R' : κ → κ → Prop} {rs rw : κ × Except Err α} (h : OpRel R rs rw)
+    (hm : ∀ a b, R a b → R' a b) : OpRel R' rs rw := by
+  rcases h with hp | ⟨he, hk⟩
+  · exact Or.inl hp
+  · exact Or.inr ⟨he, fun hx => hm _ _ (hk hx)⟩
+
+theorem handleNonTag_text (d : Disp γ) (input : Bytes) (pc : Nat) (raw : Range) (tt : TextType) :
+    Disp.handleNonTag ctl input ⟨pc, raw, some (.text tt)⟩ d =
+      if d.flags.text = true then d.produceText ctl input ⟨pc, raw, some (.text tt)⟩ tt else (d, .ok ()) := by
+  unfold Disp.handleNonTag Disp.produceNonTag
+  simp [NonTagLexeme.isText, DRes.bind]
+
+/-- **The dispatcher instance of `OpsSim`**, for every controller in the class `TextBlind`. -/
+theorem dispOps_sim {E : γ → γ → Prop} {inpS inpW : Bytes} {δ : Nat} (F : Frame inpS inpW δ) (hcl : TextBlind ctl E) :
+    OpsSim (dispOps ctl) inpS inpW δ (DK ctl E inpS inpW δ) DLoc where
+  tag := fun pc raw o ks kw hk => (handleTag_sim F hcl (DK_zero.1 hk) pc raw o).mono (fun _ _ h => DK_zero.2 h)
+  nonTag := fun pc raw o ks kw hk => (handleNonTag_sim F hcl (DK_zero.1 hk) pc raw o).mono (fun _ _ h => DK_zero.2 h)
+  startHint := fun n ns ks kw hk => (startTagHint_sim hcl (DK_zero.1 hk) n ns).mono (fun _ _ h => DK_zero.2 h)
+  endHint := fun n ks kw hk => (endTagHint_sim hcl (DK_zero.1 hk) n).mono (fun _ _ h => DK_zero.2 h)
+  textOk := by
+    intro pc raw tt ks
+    show EPanic (Disp.handleNonTag ctl inpS ⟨pc, raw, some (.text tt)⟩ ks).2 ∨ _
+    rw [show (dispOps ctl).handleNonTag = Disp.handleNonTag ctl from rfl, handleNonTag_text]
+    split
+    · rcases produceText_desc ⟨E, hcl⟩ ks inpS ⟨pc, raw, some (.text tt)⟩ tt with hp | ⟨_, _, _, h2, _⟩
+      · exact Or.inl hp
+      · exact Or.inr h2
+    · exact Or.inr rfl
+  text := by
+    intro pc a x d tt ks kw hk hloc hd hδ hx
+    rw [show (dispOps ctl).handleNonTag = Disp.handleNonTag ctl from rfl, handleNonTag_text, handleNonTag_text]
+    unfold DK at hk
+    rw [if_neg (by omega)] at hk
+    cases hft : ks.flags.text with
+    | false =>
+      have h0 := hk.1 hft
+      rw [h0.eq.flags, hft]
+      simp only [Bool.false_eq_true, if_false, ite_self]
+      exact OpRel.ok () (DK_zero.2 h0)
+    | true =>
+      have ht := hk.2 hft
+      rw [ht.eq.flags, hft]
+      simp only [if_true]
+      have hl : ks.rcs = a + d - δ ∧ ks.textPendingStart = pc + δ + (a + d - δ) ∧ ks.lastTextType = tt ∧
+          ks.textPending = true := hloc hft
+      exact (textRepay_sim F hcl pc a x d tt ht hl hd hδ hx _ _).mono (fun _ _ h => DK_zero.2 h)
+
 end
 
 end LolHtml.Model.Chunk
